@@ -361,42 +361,113 @@ func (r *c18Runner) explainLayout(blamed, pe parser.Expr, mode string, bt int64,
 			return "later_series_of_reused_cursor_miss_out_of_order_rows"
 		}
 	}
-	if call, ok := blamed.(*parser.Call); ok {
-		// (6) {avg,min,max,sum,count,last}_over_time, range query with step > range, the last storage record of a series holds
-		// only rows that lie in no window: the reducer pads from step 0 of the Unix epoch and the answer is the error below
-		// (recognised by its trigger: the answer carries no values to test)
-		switch call.Func.Name {
-		case "avg_over_time", "min_over_time", "max_over_time", "sum_over_time", "count_over_time", "last_over_time":
-			if ms, ok := call.Args[0].(*parser.MatrixSelector); ok && ranged && cls == "server_error" &&
-				strings.Contains(diff, "same labelset") && rq.Step > ms.Range.Milliseconds() {
-				return "incagg_step_gt_range_tail_record_outside_windows"
+	call, isCall := blamed.(*parser.Call)
+	var ms *parser.MatrixSelector
+	if isCall {
+		for _, a := range call.Args {
+			if m, ok := a.(*parser.MatrixSelector); ok {
+				ms = m
 			}
 		}
-		// (7) resets() answers 0 for evaluation steps between two storage records whose window holds no sample
-		if call.Func.Name == "resets" && bt != 0 {
+	}
+	// (6) range query whose end is not on the step grid: the store also reads the samples after the last step; when they are
+	// the only rows of a trailing storage record the last step is lost (or repeated). The same query with the end moved to
+	// its last step is answered like upstream.
+	if ranged && rq.Step > 0 && (rq.End-rq.Start)%rq.Step != 0 && bt != 0 {
+		al := rq
+		al.End = rq.Start + (rq.End-rq.Start)/rq.Step*rq.Step
+		w, g := r.ref.rng(blamed.String(), al), r.srv.rng(r.db, blamed.String(), al)
+		if g.Err == "" && w.Err == "" {
+			if c, _, _ := r.diffRange(blamed, al, w, g); c == "" {
+				return "range_end_off_step_grid_changes_answer"
+			}
+		}
+	}
+	// (7) resets() answers 0 for evaluation steps between two storage records whose window holds no sample
+	if isCall && call.Func.Name == "resets" && bt != 0 {
+		w, g := up(blamed.String()), ans(r.srv, r.db, blamed.String())
+		if g.Err == "" {
+			extraZero, other := 0, 0
+			for k, gp := range g.Series {
+				wp := w.Series[k]
+				switch {
+				case len(wp) == 0 && len(gp) == 1 && gp[0].V == 0:
+					extraZero++
+				case len(wp) == len(gp) && (len(gp) == 0 || c18Close(wp[0].V, gp[0].V)):
+				default:
+					other++
+				}
+			}
+			for k, wp := range w.Series {
+				if len(wp) > 0 && len(g.Series[k]) == 0 {
+					other++
+				}
+			}
+			if extraZero > 0 && other == 0 {
+				return "resets_zero_for_empty_window_between_records"
+			}
+		}
+	}
+	// (8) stale markers: whether a window continues in the next storage record and whether a record is the last one of its
+	// series is decided before the markers are removed. Recognised by its trigger: a range function, and every series whose
+	// answer differs (at bt; any series if the answer is an error) has a stale marker among its samples.
+	if isCall && ms != nil && bt != 0 {
+		stale := map[string]bool{} // "job/instance" of the series of the selector's metric that hold a marker
+		name := ms.VectorSelector.(*parser.VectorSelector).Name
+		for _, sr := range r.set.Series {
+			if sr.Labels["__name__"] != name {
+				continue
+			}
+			for _, p := range sr.Samples {
+				if value.IsStaleNaN(p.V) {
+					stale[sr.Labels["job"]+"/"+sr.Labels["instance"]] = true
+				}
+			}
+		}
+		if len(stale) > 0 {
 			w, g := up(blamed.String()), ans(r.srv, r.db, blamed.String())
+			only := true
 			if g.Err == "" {
-				extraZero, other := 0, 0
-				for k, gp := range g.Series {
-					wp := w.Series[k]
-					switch {
-					case len(wp) == 0 && len(gp) == 1 && gp[0].V == 0:
-						extraZero++
-					case len(wp) == len(gp) && (len(gp) == 0 || c18Close(wp[0].V, gp[0].V)):
-					default:
-						other++
+				differs := func(k string) bool {
+					a, b := w.Series[k], g.Series[k]
+					return len(a) != len(b) || (len(a) > 0 && (a[0].T != b[0].T || !c18Close(a[0].V, b[0].V)))
+				}
+				keys := map[string]bool{}
+				for k := range w.Series {
+					keys[k] = true
+				}
+				for k := range g.Series {
+					keys[k] = true
+				}
+				n := 0
+				for k := range keys {
+					if !differs(k) {
+						continue
 					}
-				}
-				for k, wp := range w.Series {
-					if len(wp) > 0 && len(g.Series[k]) == 0 {
-						other++
+					n++
+					hit := false
+					for js := range stale {
+						ji := strings.SplitN(js, "/", 2)
+						if strings.Contains(k, `job="`+ji[0]+`"`) && strings.Contains(k, `instance="`+ji[1]+`"`) {
+							hit = true
+						}
 					}
+					only = only && hit
 				}
-				if extraZero > 0 && other == 0 {
-					return "resets_zero_for_empty_window_between_records"
-				}
+				only = only && n > 0
+			}
+			if only {
+				return "stale_marker_decides_record_continuation"
 			}
 		}
+	}
+	// (9) range query of a range function with step > range: IsSameStep puts a sample whose time is exactly a step into the
+	// window of the following step, so a window that ends on the first row of the next storage record is evaluated twice
+	// (wrong value, or a repeated timestamp = the error "same labelset"); and (floatIncAggReducer) a last record whose rows
+	// lie in no window pads steps from the Unix epoch (same error). Recognised by the trigger step > range on a layout with
+	// several records per series (the one-record default layout is answered like upstream: see the caller).
+	if isCall && ms != nil && ranged && rq.Step > ms.Range.Milliseconds() {
+		return "range_step_gt_range_window_across_records"
 	}
 	return ""
 }
